@@ -58,7 +58,8 @@ ValidOk == /\ Ev.chk = 0
            /\ (Ev.hs => Valid(Ev.shape))
            /\ Ev.h <= 30 /\ Pow2(Ev.h) <= (Ev.cnt + 1) * (Ev.cnt + 1)
            /\ (Ev.op = "get" /\ Ev.cmps >= 0 => Ev.cmps <= 30 /\ Pow2(Ev.cmps) <= (Ev.cnt + 1) * (Ev.cnt + 1))
-FailedCleanly == /\ Ev.inj > 0 /\ Ev.nfail > 0 /\ ~Ev.ok /\ StateOk(map)
+\* a call that reports failure must not hand out half of a result (a value copy without its key)
+FailedCleanly == /\ Ev.inj > 0 /\ Ev.nfail > 0 /\ ~Ev.ok /\ StateOk(map) /\ Ev.half = 0
 Monitors == (IF Ev.lkd # 0 THEN {"lock"} ELSE {}) \cup (IF Ev.ovl # 0 THEN {"overlap"} ELSE {})
             \cup (IF Ev.bf # 0 THEN {"badfree"} ELSE {})
 Why == IF Ev.op = "free" THEN (IF Ev.live # 0 THEN {"leak"} ELSE {}) \cup (IF ~Ev.copies_ok THEN {"copy"} ELSE {})
@@ -66,8 +67,8 @@ Why == IF Ev.op = "free" THEN (IF Ev.live # 0 THEN {"leak"} ELSE {}) \cup (IF ~E
             (IF FailedCleanly THEN {}
              ELSE (IF ~ResultOk THEN {IF Ev.inj > 0 THEN "enomem" ELSE "result"} ELSE {})
                   \cup (IF ~StateOk(m) THEN {IF Ev.inj > 0 THEN "enomem" ELSE "state"} ELSE {})
-                  \cup (IF ~WalkOk THEN {"walk"} ELSE {})
-                  \cup (IF ~NearOk THEN {"nearest"} ELSE {}))
+                  \cup (IF ~WalkOk THEN {IF Ev.inj > 0 THEN "enomem" ELSE "walk"} ELSE {})
+                  \cup (IF ~NearOk THEN {IF Ev.inj > 0 THEN "enomem" ELSE "nearest"} ELSE {}))
             \cup (IF ~ValidOk THEN {"valid"} ELSE {})
             \cup Monitors
 \* ---- informational conformance with the transcription ----
@@ -96,8 +97,9 @@ Ghost ==   \* traversal bookkeeping (hypotheses of C03/C04), following the recor
   CASE Ev.op = "next" ->
          IF Ev.ok THEN /\ out' = Append(out, <<Ev.rk, Ev.rv>>) /\ mode' = (IF mode = "idle" THEN "walk" ELSE mode)
                        /\ unfinished' = TRUE
+         ELSE IF Ev.nfail > 0 THEN UNCHANGED <<out, mode, unfinished>>      \* failed copy: the call is repeated
          ELSE /\ out' = <<>> /\ mode' = "idle"
-              /\ unfinished' = (IF Dom = {} \/ Ev.nfail > 0 THEN unfinished ELSE FALSE)
+              /\ unfinished' = (IF Dom = {} THEN unfinished ELSE FALSE)
     [] Ev.op = "abandon" -> out' = <<>> /\ mode' = "idle" /\ UNCHANGED unfinished
     [] Ev.op = "nearest" /\ Ev.b = 1 /\ Ev.ok ->
          /\ out' = <<>> /\ mode' = (IF unfinished THEN "walk?" ELSE "nwalk") /\ UNCHANGED unfinished
@@ -109,7 +111,11 @@ TNext ==
         /\ tree' = Nil /\ ttid' = Ev.ttid /\ cur' = None /\ out' = <<>> /\ mode' = "idle" /\ unfinished' = FALSE
         /\ map' = EmptyMap /\ skipping' = FALSE /\ UNCHANGED <<nconf, ncmp>>
      ELSE IF skipping THEN UNCHANGED <<tree, ttid, cur, out, mode, unfinished, map, skipping, nconf, ncmp>>
-     ELSE IF Ev.op \in {"crash", "timeout"} THEN
+     ELSE IF Ev.op = "ctor" THEN
+                 \* constructor under allocation failure: a failed constructor leaves nothing allocated (C15)
+                 IF Ev.live = 0 \/ "leak" \notin Owned THEN UNCHANGED <<tree, ttid, cur, out, mode, unfinished, map, skipping, nconf, ncmp>>
+                 ELSE PrintT("REJECT " \o ToJson([l |-> l, why |-> {"leak"}, ev |-> Ev, exp |-> "constructor leaked"])) /\ skipping' = TRUE /\ UNCHANGED <<tree, ttid, cur, out, mode, unfinished, map, nconf, ncmp>>
+            ELSE IF Ev.op \in {"crash", "timeout"} THEN
         /\ Reject({Ev.op} \cup (IF Ev.where = "nearest" THEN {"nearest"} ELSE IF Ev.where \in {"next", "walk"} THEN {"walk"} ELSE {"result"}),
                   "no action admits this event")
         /\ skipping' = TRUE /\ UNCHANGED <<tree, ttid, cur, out, mode, unfinished, map, nconf, ncmp>>
